@@ -59,10 +59,11 @@
 ** Arguments
 **     self    The bucket
 **     keyarg    The key to look for
-**     has_key    Boolean; if true, return a true/false result; else return
-**              the value associated with the key. When true, ignore the TypeError from
+**     has_key    If > 0, return a true/false result; else return
+**              the value associated with the key. When non-zero, ignore the TypeError from
 **              a key conversion issue, instead
-**              transforming it into a KeyError.
+**              transforming it into a KeyError (< 0: get() and []; an
+**              exception raised by a comparison is passed on as it is).
 **
 ** Return
 **     If has_key:
@@ -106,7 +107,7 @@ _bucket_get(Bucket *self, PyObject *keyarg, int has_key)
     UNLESS (PER_USE(self)) return NULL;
 
     BUCKET_SEARCH(i, cmp, self, key, goto Done);
-    if (has_key)
+    if (has_key > 0)
         r = PyLong_FromLong(cmp ? 0 : has_key);
     else
     {
@@ -126,17 +127,7 @@ Done:
 static PyObject *
 bucket_getitem(Bucket *self, PyObject *key)
 {
-    PyObject* result;
-
-    result = _bucket_get(self, key, 0);
-
-    if (result == NULL && PyErr_ExceptionMatches(PyExc_TypeError))
-    {
-        PyErr_Clear();
-        PyErr_SetObject(PyExc_KeyError, key);
-    }
-
-    return result;
+    return _bucket_get(self, key, -1);
 }
 
 /*
@@ -1581,13 +1572,9 @@ bucket_getm(Bucket *self, PyObject *args)
 
     if (!PyArg_ParseTuple(args, "O|O:get", &key, &d))
         return NULL;
-    r = _bucket_get(self, key, 0);
+    r = _bucket_get(self, key, -1);
     if (r)
         return r;
-    if (PyErr_ExceptionMatches(PyExc_TypeError)) {
-        PyErr_Clear();
-        PyErr_SetObject(PyExc_KeyError, key);
-    }
     if (!BTree_ShouldSuppressKeyError())
         return NULL;
     PyErr_Clear();
